@@ -35,11 +35,15 @@ type vcHandler struct {
 	path      paths.Path
 	applies   atomic.Int64
 	rollbacks atomic.Int64
+	failNext  atomic.Bool // fault plan: the next Apply fails
 }
 
 func (h *vcHandler) Validate(ctx context.Context, hctx *conf.HandlerContext) error { return nil }
 func (h *vcHandler) Apply(ctx context.Context, hctx *conf.HandlerContext) error {
 	h.applies.Add(1)
+	if h.failNext.CompareAndSwap(true, false) {
+		return fmt.Errorf("injected apply failure")
+	}
 	return nil
 }
 func (h *vcHandler) Rollback(ctx context.Context, hctx *conf.HandlerContext) error {
@@ -112,7 +116,10 @@ type vcExpect struct {
 	ok bool
 }
 
-// cm <mode> <K> { <G> {<name> <R> {<sv> <cv>}} } <Q> {<s> <c>}      mode = commit | boot
+// cm <mode> <faults> <K> { <G> {<name> <R> {<sv> <cv>}} } <Q> {<s> <c>}      mode = commit | boot
+// faults: one letter per candidate: - none, A the handler's Apply fails, S the startup file cannot be written (both AFTER
+// the pre-commit validation: the commit fails, nothing is published).  The candidate session is kept after a commit that did
+// not succeed and re-used for the next candidate (LoadConfig replaces its content), as an operator's session would be.
 func vcCase(f []string, dir string) (res string) {
 	defer func() {
 		if r := recover(); r != nil {
@@ -123,8 +130,9 @@ func vcCase(f []string, dir string) (res string) {
 		return "badline"
 	}
 	mode := f[1]
-	k, _ := strconv.Atoi(f[2])
-	p := 3
+	faults := f[2]
+	k, _ := strconv.Atoi(f[3])
+	p := 4
 	specs := make([][]vcGroupSpec, k)
 	for g := 0; g < k; g++ {
 		ng, _ := strconv.Atoi(f[p])
@@ -280,10 +288,12 @@ func vcCase(f []string, dir string) (res string) {
 		cfgs[g] = build(g)
 	}
 	// what each generation answers, from an index the harness builds itself over the same configuration objects
-	acc := make([]bool, k)
+	acc := make([]bool, k) // will be published: the validator accepts it and no fault is planned for it
+	val := make([]bool, k) // the validator accepts it
 	exp := make([][]vcExpect, k)
 	for g := first; g < k; g++ {
-		acc[g] = subscriber.ValidateMatchIndex(cfgs[g].SubscriberGroups) == nil
+		val[g] = subscriber.ValidateMatchIndex(cfgs[g].SubscriberGroups) == nil
+		acc[g] = val[g] && (g >= len(faults) || faults[g] == '-')
 		ix := subscriber.BuildMatchIndex(cfgs[g].SubscriberGroups)
 		for _, q := range qs {
 			m, ok := ix.Lookup(q.s, q.c)
@@ -369,31 +379,59 @@ func vcCase(f []string, dir string) (res string) {
 			}
 		}(r)
 	}
+	blocker := filepath.Join(dir, "blocker")
+	os.WriteFile(blocker, []byte("x"), 0644)
+	goodStartup := cd.startupConfigPath
+	var sid conf.SessionID
+	haveSession := false
 	for g := first; g < k; g++ {
 		started.Store(int64(g))
-		sid, err := cd.CreateCandidateSession()
+		fault := byte('-')
+		if g < len(faults) {
+			fault = faults[g]
+		}
+		var err error
+		if !haveSession {
+			sid, err = cd.CreateCandidateSession()
+			haveSession = err == nil
+		}
 		v := ""
 		if err == nil {
+			switch fault {
+			case 'A':
+				hnd.failNext.Store(true)
+			case 'S':
+				cd.startupConfigPath = filepath.Join(blocker, "startup-config.yaml") // parent is a regular file
+			}
 			if err = cd.LoadConfig(sid, cfgs[g]); err == nil {
 				err = cd.Commit(sid)
 			}
-			if err != nil {
-				cd.CloseCandidateSession(sid)
+			hnd.failNext.Store(false)
+			cd.startupConfigPath = goodStartup
+			if err == nil {
+				haveSession = false // a successful commit consumes the session
 			}
 		}
-		// verdict by nil-ness only (no error text), cross-checked with the validator's own nil-ness
+		// verdict by nil-ness only (no error text), cross-checked with the validator's own nil-ness and the fault plan
 		switch {
 		case err == nil:
 			v = "valid"
-		case !acc[g]:
+		case !val[g]:
 			v = "rejected"
+		case fault != '-':
+			v = "failed"
 		default:
 			v = "ERROR:commit-failed-on-a-configuration-ValidateMatchIndex-accepts"
 		}
 		if err == nil && !acc[g] {
-			v += "!COMMITTED-ALTHOUGH-ValidateMatchIndex-REJECTS"
+			v += "!COMMITTED-ALTHOUGH-REJECTED-OR-FAULTED"
 		}
-		v += ":" + hnd.delta(&lastA, &lastR)
+		if v == "failed" {
+			hnd.delta(&lastA, &lastR)
+			v += ":h*" // handlers ran and were (partly) rolled back: C13's business
+		} else {
+			v += ":" + hnd.delta(&lastA, &lastR)
+		}
 		done.Store(int64(g))
 		out = append(out, v+":"+quiescent())
 	}
